@@ -1,6 +1,7 @@
 package main
 
 import (
+	"path/filepath"
 	"fmt"
 	"go/constant"
 	"os"
@@ -492,7 +493,11 @@ func (h *HarnessRun) run(prog *ssa.Program, hpkg *ssa.Package, base *State, tier
 	h.known = known
 	fn := hpkg.Func(h.Spec.Name)
 	if fn == nil {
-		h.Incon = append(h.Incon, Inconclusive{h.Spec.Name, "missing", "harness function not found in " + hpkg.Pkg.Path()})
+		msg := "harness function not found in " + hpkg.Pkg.Path()
+		for f, e := range droppedHarnessFiles {
+			msg += "; " + filepath.Base(f) + " was left out: it does not compile against this tree (" + e + ")"
+		}
+		h.Incon = append(h.Incon, Inconclusive{h.Spec.Name, "missing", msg})
 		return
 	}
 	h.StaticIDs = staticObligationIDs(fn)
